@@ -40,7 +40,7 @@ func (c11) Cases(tier string) int {
 func (c11) Describe() core.Info {
 	return core.Info{
 		Level: "exploration",
-		Rule: "declared programs written as source text: an extensional predicate q declared with one or two bound rows drawn from the type-expression generator (base types, name-prefix types incl. prefix-of-a-prefix names /foo vs /foobar, singletons, unions, pairs, lists, maps, structs with optional fields, tagged unions; function and dot syntax) with base facts that are members by construction and near-misses (sibling prefix, wrong shape, extra struct field); an intensional predicate p declared with a related bound (same, widened, narrowed, mutated) and one rule that copies, projects, constructs (fn:pair, list, map, struct) or destructures (:match_pair, :list:member, :match_field, :match_entry) values, or joins q (two bound rows) with a wider predicate src on the same variable in either premise order. Programs are submitted to AnalyzeAndCheckBounds(ErrorForBoundsMismatch); every accepted program is evaluated and every stored fact of a user-declared predicate is judged by the library's own run-time check (builtin.TypeChecker.CheckTypeBounds). Non-trivial: program accepted and the declared intensional predicate has a derived fact; distinct by program text.",
+		Rule: "declared programs written as source text: an extensional predicate q declared with one or two bound rows drawn from the type-expression generator (base types, name-prefix types incl. prefix-of-a-prefix names /foo vs /foobar, singletons, unions, pairs, lists, maps, structs with optional fields, tagged unions; function and dot syntax) with base facts that are members by construction and near-misses (sibling prefix, wrong shape, extra struct field); an intensional predicate p declared with a related bound (same, widened, narrowed, mutated) and one rule that copies, projects, constructs (fn:pair, list, map, struct) or destructures (:match_pair, :list:member, :match_field, :match_entry) values, or joins q (two bound rows) with a wider predicate src on the same variable in either premise order, or narrows a union of name-prefix types by one or two negated :match_prefix premises over a small name trie. Programs are submitted to AnalyzeAndCheckBounds(ErrorForBoundsMismatch); every accepted program is evaluated and every stored fact of a user-declared predicate is judged by the library's own run-time check (builtin.TypeChecker.CheckTypeBounds). Non-trivial: program accepted and the declared intensional predicate has a derived fact; distinct by program text.",
 		Assumptions: []string{"the run-time judgement is the library's own, as the property states", "rejected programs are not judged"},
 	}
 }
@@ -152,8 +152,47 @@ func (c11) Gen(r *rand.Rand, tier string, i int) any {
 	if !c12WellFormed(pt) || strings.Contains(fmt.Sprint(pt), "fn:Option") {
 		pt = t
 	}
-	shapes := []string{"copy", "pair", "list", "struct", "map", "member", "match-pair", "match-field", "copy-second-row", "cons", "join", "join-rev", "join-two-rows"}
+	shapes := []string{"copy", "pair", "list", "struct", "map", "member", "match-pair", "match-field", "copy-second-row", "cons", "join", "join-rev", "join-two-rows", "neg-prefix"}
 	shape := shapes[r.Intn(len(shapes))]
+	if shape == "neg-prefix" {
+		// a variable typed as a union of name-prefix types is narrowed by a negated :match_prefix: only a member
+		// that lies below the negated prefix may be removed from the union
+		trie := []string{"/kind", "/kind/a", "/kind/b", "/kind/a/x", "/kind/b/z", "/other"}
+		pick := func() string { return trie[r.Intn(len(trie))] }
+		m1, m2 := pick(), pick()
+		negp := pick()
+		var pb string
+		switch r.Intn(4) {
+		case 0:
+			pb = m1
+		case 1:
+			pb = m2
+		case 2:
+			pb = wrap2(syntax, "Union", m1, m2)
+		default:
+			pb = pick()
+		}
+		var nb strings.Builder
+		if r.Intn(2) == 0 {
+			fmt.Fprintf(&nb, "Decl q(X) bound [%s].\n", wrap2(syntax, "Union", m1, m2))
+		} else {
+			fmt.Fprintf(&nb, "Decl q(X) bound [%s] bound [%s].\n", m1, m2)
+		}
+		for _, m := range []string{m1, m2} {
+			for _, suffix := range []string{"/y/2", "/x/1", "/q"} {
+				if r.Intn(2) == 0 {
+					fmt.Fprintf(&nb, "q(%s%s).\n", m, suffix)
+				}
+			}
+		}
+		fmt.Fprintf(&nb, "Decl p(X) bound [%s].\n", pb)
+		if r.Intn(2) == 0 {
+			fmt.Fprintf(&nb, "p(X) :- q(X), !:match_prefix(X, %s).\n", negp)
+		} else {
+			fmt.Fprintf(&nb, "p(X) :- q(X), !:match_prefix(X, %s), !:match_prefix(X, %s).\n", negp, pick())
+		}
+		return c11Case{Text: nb.String(), Shape: shape, Syntax: syntax}
+	}
 	ptText := c11TypeText(pt, syntax)
 	wrap := func(ctor string, args ...string) string {
 		inner := strings.Join(args, ", ")
@@ -265,6 +304,14 @@ func (c11) Gen(r *rand.Rand, tier string, i int) any {
 		sb.WriteString(twinText)
 	}
 	return c11Case{Text: sb.String(), Shape: shape, Syntax: syntax}
+}
+
+func wrap2(syntax, ctor string, args ...string) string {
+	inner := strings.Join(args, ", ")
+	if syntax == "dot" {
+		return "." + ctor + "<" + inner + ">"
+	}
+	return "fn:" + ctor + "(" + inner + ")"
 }
 
 // c11HashTwins returns constants of other kinds whose Hash() equals v's.
@@ -384,13 +431,32 @@ func c11MixedStructs(f ast.Atom) bool {
 		sort.Strings(ks)
 		return strings.Join(ks, ",")
 	}
+	// structsIn collects the structs that sit at corresponding type positions below the elements: the
+	// elements themselves, and the elements of element lists / values of element maps, recursively (their
+	// types are joined when the type of the container is computed, e.g. [[{/a: x}], [{}]]).
+	var structsIn func(elems []ast.Constant, out *[]ast.Constant)
+	structsIn = func(elems []ast.Constant, out *[]ast.Constant) {
+		for _, e := range elems {
+			switch e.Type {
+			case ast.StructShape:
+				*out = append(*out, e)
+			case ast.ListShape:
+				var sub []ast.Constant
+				e.ListValues(func(x ast.Constant) error { sub = append(sub, x); return nil }, func() error { return nil })
+				structsIn(sub, out)
+			case ast.MapShape:
+				var sub []ast.Constant
+				e.MapValues(func(k, v ast.Constant) error { sub = append(sub, v); return nil }, func() error { return nil })
+				structsIn(sub, out)
+			}
+		}
+	}
 	mixed := func(elems []ast.Constant) bool {
+		var ss []ast.Constant
+		structsIn(elems, &ss)
 		seen := ""
 		first := true
-		for _, e := range elems {
-			if e.Type != ast.StructShape {
-				continue
-			}
+		for _, e := range ss {
 			fs := fields(e)
 			if !first && fs != seen {
 				return true
